@@ -726,7 +726,7 @@ fn soak_call(k: u64) -> (String, vsim::coresim::Call) {
         6..=8 => Op::Source,
         _ => Op::Width,
     };
-    (text, vsim::coresim::Call { op, doc: 0, cfg, feed_prev: false })
+    (text, vsim::coresim::Call { op, doc: 0, cfg, feed_prev: false, via_clone: false })
 }
 
 fn cmd_soak(args: &[String]) -> i32 {
